@@ -17,8 +17,16 @@ from vf.driver import Harness
 
 PROPERTY = "C20"
 STATES = ["unfired", "fired(int)", "fired(None)", "fired(nested tuple)", "failed(ValueError)", "failed(KeyError)",
-          "failed(RuntimeError)", "fired, but waiting on an unfired Deferred returned by a callback"]
-EXC = {4: ValueError, 5: KeyError, 6: RuntimeError}
+          "failed(RuntimeError)", "fired, but waiting on an unfired Deferred returned by a callback",
+          "failed(SystemExit)", "failed(KeyboardInterrupt)"]
+
+
+class UserBase(BaseException):
+    """A user exception class deriving from BaseException only."""
+
+
+EXC = {4: ValueError, 5: KeyError, 6: RuntimeError, 8: SystemExit, 9: KeyboardInterrupt}
+HANDLED_EXC = [ValueError, KeyError, RuntimeError, SystemExit, KeyboardInterrupt, UserBase]
 PRE = ["none", "addCallback(wrap)", "addBoth(passthrough)", "addErrback(recover)"]
 INNER = ["Always", "Never", "Equals(q)"]
 
@@ -61,6 +69,13 @@ def inner_matcher(kind, on_failure, q):
 
 
 def run_classify(state, pre, inner, x, q):
+    try:
+        return _run_classify(state, pre, inner, x, q)
+    except Exception as e:
+        return ["a matcher / extract_result raised %s: %s" % (type(e).__name__, e)]
+
+
+def _run_classify(state, pre, inner, x, q):
     problems = []
     # exclusivity on three fresh Deferreds in the same state
     res = []
@@ -95,7 +110,7 @@ def run_classify(state, pre, inner, x, q):
         out = ("value", extract_result(d))
     except DeferredNotFired:
         out = ("notfired", None)
-    except Exception as e:
+    except (Exception, SystemExit, KeyboardInterrupt) as e:
         out = ("raised", type(e))
     if kind == "none" and out[0] != "notfired":
         problems.append("extract_result on an unfired Deferred: %r" % (out,))
@@ -107,6 +122,13 @@ def run_classify(state, pre, inner, x, q):
 
 
 def run_preserve(state, pre, which, order, x, w, fail_later=False):
+    try:
+        return _run_preserve(state, pre, which, order, x, w, fail_later)
+    except Exception as e:
+        return ["a matcher raised %s: %s" % (type(e).__name__, e)]
+
+
+def _run_preserve(state, pre, which, order, x, w, fail_later=False):
     """Results stay intact for callbacks added after matching; order of match / fire / add-callback."""
     problems = []
     matcher = [has_no_result(), succeeded(Always()), failed(Always())][which]
@@ -160,7 +182,7 @@ def run_handled(state, which, x):
     """A failure inspected by succeeded()/failed() is marked handled: nothing is logged at GC."""
     def scenario():
         d = defer.Deferred()
-        d.errback(Failure(EXC[state](x)))
+        d.errback(Failure(HANDLED_EXC[state - 4](x)))
         [succeeded(Always()), failed(Always()), failed(Never())][which].match(d)
         del d
         gc.collect()
@@ -225,10 +247,10 @@ def run_sync(stage, kind, flav):
 # --- harnesses ---------------------------------------------------------------------------------
 def h_classify(state: int, pre: int, inner: int, x: int, q: int) -> bool:
     """
-    pre: 0 <= state < 8 and 0 <= pre < 4 and 0 <= inner < 3
+    pre: 0 <= state < 10 and 0 <= pre < 4 and 0 <= inner < 3
     post: _
     """
-    v = dict(state=ch.sel("state", state, 8), pre=ch.sel("pre", pre, 4), inner=ch.sel("inner", inner, 3))
+    v = dict(state=ch.sel("state", state, 10), pre=ch.sel("pre", pre, 4), inner=ch.sel("inner", inner, 3))
     problems = run_classify(v["state"], v["pre"], v["inner"], x, q)
     ch.LAST["problems"] = problems
     return ch.finish(not problems, v, nontrivial=True, sym=("x", "q"))
@@ -236,11 +258,13 @@ def h_classify(state: int, pre: int, inner: int, x: int, q: int) -> bool:
 
 def h_preserve(state: int, pre: int, which: int, order: int, x: int, w: int, fail_later: bool) -> bool:
     """
-    pre: 0 <= state < 7 and 0 <= pre < 4 and 0 <= which < 3 and 0 <= order < 3
+    pre: 0 <= state < 10 and 0 <= pre < 4 and 0 <= which < 3 and 0 <= order < 3
     post: _
     """
-    v = dict(state=ch.sel("state", state, 7), pre=ch.sel("pre", pre, 4), which=ch.sel("which", which, 3),
+    v = dict(state=ch.sel("state", state, 10), pre=ch.sel("pre", pre, 4), which=ch.sel("which", which, 3),
              order=ch.sel("order", order, 3))
+    if v["state"] == 7:
+        return True
     v["fail_later"] = ch.cbool(fail_later) if v["state"] == 0 else False
     problems = run_preserve(v["state"], v["pre"], v["which"], v["order"], x, w, v["fail_later"])
     ch.LAST["problems"] = problems
@@ -249,10 +273,10 @@ def h_preserve(state: int, pre: int, which: int, order: int, x: int, w: int, fai
 
 def h_handled(state: int, which: int) -> bool:
     """
-    pre: 4 <= state < 7 and 0 <= which < 3
+    pre: 4 <= state < 10 and 0 <= which < 3
     post: _
     """
-    v = dict(state=ch.conc(state - 4, 3) + 4, which=ch.sel("which", which, 3))
+    v = dict(state=ch.conc(state - 4, 6) + 4, which=ch.sel("which", which, 3))
     problems = run_handled(v["state"], v["which"], 5)
     ch.LAST["problems"] = problems
     return ch.finish(not problems, v, nontrivial=True)
@@ -273,18 +297,18 @@ def h_sync(stage: int, kind: int, flav: int) -> bool:
 
 
 HARNESSES = [
-    Harness("classify", h_classify, lambda tier: [({"state": s}, 600) for s in range(8)],
-            bounds={"quick": "Deferred state {unfired, fired with a symbolic int / None / nested tuple, failed with one of 3 exception "
-                             "classes carrying a symbolic int, fired but paused on an unfired Deferred returned by a callback} x pre-attached callback {none, wrapping callback, pass-through addBoth, "
+    Harness("classify", h_classify, lambda tier: [({"state": s}, 600) for s in range(10)],
+            bounds={"quick": "Deferred state {unfired, fired with a symbolic int / None / nested tuple, failed with one of 5 exception "
+                             "classes (incl. SystemExit, KeyboardInterrupt) carrying a symbolic int, fired but paused on an unfired Deferred returned by a callback} x pre-attached callback {none, wrapping callback, pass-through addBoth, "
                              "recovering errback} x inner matcher {Always, Never, Equals(symbolic q) / AfterPreprocessing on the failure}: "
                              "mutual exclusivity on three fresh Deferreds, succeeded(m)/failed(m), extract_result, called flag unchanged"},
             rule="every path non-trivial", sym=("x", "q")),
-    Harness("preserve", h_preserve, lambda tier: [({"state": s}, 600) for s in range(7)],
+    Harness("preserve", h_preserve, lambda tier: [({"state": s}, 600) for s in (0, 1, 2, 3, 4, 5, 6, 8, 9)],
             bounds={"quick": "each matcher applied (once or twice) in every order of match / fire / add-callback on unfired Deferreds "
                              "fired later with a symbolic value or with a failure, and on fired ones: callbacks/errbacks added afterwards receive the original result"},
             rule="every path non-trivial", sym=("x", "w")),
     Harness("handled", h_handled, lambda tier: [({}, 300)],
-            bounds={"quick": "failed Deferred (3 exception classes) inspected by succeeded(Always()), failed(Always()), failed(Never()), "
+            bounds={"quick": "failed Deferred (6 exception classes incl. SystemExit, KeyboardInterrupt and a user BaseException subclass) inspected by succeeded(Always()), failed(Always()), failed(Never()), "
                              "dropped and garbage-collected inside trap_unhandled_errors: no unhandled-failure record remains"},
             rule="every path non-trivial"),
     Harness("sync", h_sync, lambda tier: [({"flav": f}, 600) for f in range(6)],
